@@ -161,7 +161,7 @@ def drive(ns, adj, app, pieces, service="end", sock=None, sym_headers=True):
             from wsx.core import Unsupported
             raise Unsupported("engine resource error: %r" % e)
         exc = "%s: %s" % (type(e).__name__, e if not any(isinstance(a, SymSeq) for a in e.args) else "<sym>")
-    return dict(wire=sock.wire(), calls=app.calls, closing=closing(ch), closed=sock.closed,
+    return dict(wire=sock.wire(), calls=getattr(app, "calls", []), closing=closing(ch), closed=sock.closed,
                 pending=ch.request is not None, queued=len(ch.requests), sock=sock, ch=ch, exc=exc)
 
 
